@@ -123,6 +123,18 @@ inline void exec(const Step& s, std::vector<Manifold>& pool, const Limits& lim =
   else if (op == "rotate") pool.push_back(S(0).Rotate(A(0), A(1), A(2)));
   else if (op == "scale") pool.push_back(S(0).Scale({A(0), A(1), A(2)}));
   else if (op == "mirror") pool.push_back(S(0).Mirror({A(0), A(1), A(2)}));
+  else if (op == "farunion") {
+    // union of operands moved far apart (pairwise disjoint bounding boxes: the Compose fast path), each under a still-pending transform;
+    // bit i of A(1) = operand i is reflected (Mirror / negative Scale), A(0) = 0: chained +, 1: BatchBoolean(Add), 2: Manifold::Compose
+    std::vector<Manifold> v; const int mask = (int)A(1);
+    for (size_t i = 0; i < s.src.size(); i++) { Manifold x = S(i); if (!small(x)) { x = Manifold::Cube({1, 1, 1}); }
+      Box b = x.BoundingBox(); const double ext = x.IsEmpty() ? 1.0 : std::max({b.Size().x, b.Size().y, b.Size().z, 1e-3});
+      if (mask >> i & 1) x = (i % 2) ? x.Scale({1, -1, 1}) : x.Mirror({1, 0.3, 0.2});
+      v.push_back(x.Translate({(double)(i + 1) * (4 * ext + 100), 0.0, 0.0})); }
+    if ((int)A(0) == 0) { Manifold u = v[0]; for (size_t i = 1; i < v.size(); i++) u = u + v[i]; pool.push_back(u); }
+    else if ((int)A(0) == 1) pool.push_back(Manifold::BatchBoolean(v, OpType::Add));
+    else pool.push_back(Manifold::Compose(v));
+  }
   else if (op == "transform") { mat3x4 m; for (int c = 0; c < 4; c++) for (int r = 0; r < 3; r++) m[c][r] = A(c * 3 + r); pool.push_back(S(0).Transform(m)); }
   else if (op == "warp") { double k = A(0); pool.push_back(S(0).Warp([k](vec3& v) { v.z += k * v.x * v.x; v.x += 0.5 * k * v.y; })); }
   else if (op == "hull") pool.push_back(S(0).Hull());
@@ -176,6 +188,7 @@ struct Gen {
     auto two = [&](const char* op) { s.op = op; s.src = {pick(), pick()}; };
     int made = 1;
     if (k < 30) { two(k < 12 ? "add" : k < 22 ? "sub" : "int"); if (r.below(6) == 0) s.src[1] = s.src[0]; }
+    else if (k < 32 && r.below(2)) { s.op = "farunion"; int n = 2 + (int)r.below(3); for (int i = 0; i < n; i++) s.src.push_back(pick()); s.arg = {(double)r.below(3), (double)r.below(1 << n)}; }
     else if (k < 34) { s.op = "batch"; int n = 2 + (int)r.below(4); for (int i = 0; i < n; i++) s.src.push_back(pick()); s.arg = {(double)(r.below(2) ? 0 : 2)}; }
     else if (k < 37) { two("split"); made = 2; }
     else if (k < 40) { one("splitplane"); s.arg = {coord(1), coord(1), r.below(2) ? 1.0 : coord(1), coord(2)}; made = 2; }
